@@ -193,4 +193,57 @@ def run(ctx) -> None:
                 ctx.count("climatology.calls")
                 ctx.count("climatology.config_object_reuse_calls")
                 ctx.case(f"reuse|{mkind(members)}|n{gen.nclass(n)}")
+                if n >= 3:
+                    # ... and right afterwards on another axis of the same length with the same first and last instant but
+                    # other days in between (what a per-axis memo keyed on size and end points would confuse)
+                    inner = sorted({epoch(rng.choice(EDGE_DAYS), rng.choice([0, 1, 43200, 86399])) for _ in range(n * 4)}
+                                   - {t2[0], t2[-1]})
+                    inner = [v for v in inner if t2[0] < v < t2[-1]]
+                    if len(inner) >= n - 2:
+                        t3 = [t2[0], *sorted(rng.sample(inner, n - 2)), t2[-1]]
+                        if t3 != t2:
+                            kw3 = {"config": obj, "inp": gen.arr(x2), "tinp": gen.times(t3), "zinp": gen.arr(z)}
+                            client.expect(ctx, "C08", "qartod.climatology_test", kw3, lambda: models.climatology(members, x2, t3, z),
+                                          logical={"members": members, "x": x2, "t": t3, "z": z,
+                                                   "note": "config object just used on an axis with the same length and end points", "previous_t": t2},
+                                          hist="climatology")
+                            ctx.count("climatology.calls")
+                            ctx.count("climatology.same_ends_axis_after_reuse_calls")
+                            ctx.case(f"reuse-same-ends|{mkind(members)}|n{gen.nclass(n)}")
+            # history: a config object is used, THEN extended with further members, then used again: the members it holds
+            # at the time of the call decide (equal to a config built in one go)
+            if len(members) >= 2:
+                k_ = rng.randrange(1, len(members))
+                grown = to_call(rng, members[:k_], as_object=True)
+                kw0 = {"config": grown, "inp": gen.arr(x), "tinp": gen.times(t), "zinp": gen.arr(z) if z is not None else gen.arr([None] * len(x))}
+                client.expect(ctx, "C08", "qartod.climatology_test", kw0, lambda: models.climatology(members[:k_], x, t, z),
+                              logical={"members": members[:k_], "x": x, "t": t, "z": z, "note": "first use of a config that is extended later"},
+                              hist="climatology")
+                for d_ in to_call(rng, members[k_:], as_object=False):
+                    grown.add(**d_)
+                client.expect(ctx, "C08", "qartod.climatology_test", kw0, lambda: models.climatology(members, x, t, z),
+                              logical={"members": members, "x": x, "t": t, "z": z,
+                                       "note": f"config object used with its first {k_} member(s), then extended with add(), then used again"},
+                              hist="climatology")
+                ctx.count("climatology.calls", 2)
+                ctx.count("climatology.use_add_use_histories")
+                ctx.case(f"use-add-use|{mkind(members)}|k{len(members)}")
             _ = q
+    # ---- instants with a fractional second (as epoch numbers and as datetime64 of a fine unit): a member's span is closed
+    #      at whole-second bounds, so an observation a fraction of a second outside it is outside it
+    for _ in range(ctx.pick(150, 800)):
+        a = epoch(rng.choice(EDGE_DAYS), rng.choice([0, 3600, 86399]))
+        b = a + rng.choice([2, 60, 86400])
+        tq = sorted({a - 0.25, a - 0.75, float(a), a + 0.5, b - 0.25, float(b), b + 0.25, b + 0.75, b + 1.0})
+        xq = [rng.choice([0.5, 2.0, 9.0]) for _ in tq]
+        members = [{"tspan": [a, b], "vspan": [0, 1], "fspan": [-1, 5] if rng.random() < 0.5 else None, "zspan": None, "period": None}]
+        if rng.random() < 0.5:
+            members.insert(0, {"tspan": [a - 86400, b + 86400], "vspan": [0, 10], "fspan": None, "zspan": None, "period": None})
+        carq = rng.choice(["epoch-float", "epoch-list", "dt64ms", "dt64ns", "pydatetime"])
+        kw = {"config": to_call(rng, members), "inp": gen.arr(xq), "tinp": gen.ftimes(tq, carq), "zinp": gen.arr([None] * len(tq))}
+        client.expect(ctx, "C08", "qartod.climatology_test", kw, lambda: models.climatology(members, xq, tq, None),
+                      logical={"members": members, "x": xq, "t": tq, "time_carrier": carq, "note": "sub-second instants around the span ends"},
+                      hist="climatology")
+        ctx.count("climatology.calls")
+        ctx.count("climatology.subsecond_instant_calls")
+        ctx.case(f"subsecond|{carq}|k{len(members)}")
